@@ -28,6 +28,8 @@ for p in props:
     vtxt = f"{len(vp.get('reported', []))} / {vp.get('tried', 0)}" if vp else "—"
     if vp and vp.get("documented_not_covered"):
         vtxt += f" ({len(vp['documented_not_covered'])} documented as not covered)"
+    if vp and vp.get("reported_by_another_check"):
+        vtxt += f" (+{len(vp['reported_by_another_check'])} reported by the check of {', '.join(sorted({x['check'] for x in vp['reported_by_another_check']}))})"
     if vp and vp.get("does_not_typecheck"):
         vtxt += f" ({len(vp['does_not_typecheck'])} only as cannot-decide)"
     rows.append(f"| {pid} {p['title']} | claimed (other) | {rules} | {fx} commit(s) / {op} | {vtxt} |")
